@@ -121,13 +121,12 @@ def epochFold (f : Rat) (m : Int → Option Rat) : List Ev → (Int → Option R
     | none => epochFold f m es
     | some (p, v) => epochFold f (setAt m p (updEpoch (m p) v)) es
 
-/-- the two `ZeroDivisionError`s of `frequency_stats`, as a predicate on the stream -/
-def execCrash (last : Int → Option Rat) : List Ev → Bool
+/-- the `ZeroDivisionError` of `frequency_stats`, as a predicate on the stream: a `Cmpt Exec` device slice of
+zero host duration -/
+def execCrash : List Ev → Bool
   | [] => false
   | e :: es =>
-    if e.ph == "X" && e.tsx.isSome && hasSub e.name "Cmpt Exec" then
-      (decide (e.dur = 0) || decide (last e.pid = some e.ts)) || execCrash (setAt last e.pid e.ts) es
-    else execCrash last es
+    (e.ph == "X" && e.tsx.isSome && hasSub e.name "Cmpt Exec" && decide (e.dur = 0)) || execCrash es
 
 /-- device slices have a reference counter (no `KeyError` branch) -/
 def RefOk (e : Ev) : Prop := ∀ raw, e.ph = "X" → e.tsx = some raw → refIdx e.name < raw.length
@@ -141,55 +140,37 @@ theorem localFix_length (cs : List Int) : (localFix cs).length = cs.length := lo
 
 theorem phase1_ok (f : Rat) (evs : List Ev) (c : Ctx)
     (hkeep : ∀ e ∈ evs, withinLimits e = true) (href : ∀ e ∈ evs, RefOk e)
-    (hexec : execCrash c.lastExec evs = false) :
-    ∃ le, phase1 f c evs = .ok (⟨epochFold f c.epoch evs, le⟩, evs.map p1Ev) := by
+    (hexec : execCrash evs = false) :
+    phase1 f c evs = .ok (⟨epochFold f c.epoch evs⟩, evs.map p1Ev) := by
   induction evs generalizing c with
-  | nil => exact ⟨c.lastExec, rfl⟩
+  | nil => rfl
   | cons e es ih =>
     have hk : withinLimits e = true := hkeep e (by simp)
     have hr : RefOk e := href e (by simp)
     have hkeep' : ∀ e ∈ es, withinLimits e = true := fun x hx => hkeep x (by simp [hx])
     have href' : ∀ e ∈ es, RefOk e := fun x hx => href x (by simp [hx])
+    have hexec2 : (e.ph == "X" && e.tsx.isSome && hasSub e.name "Cmpt Exec" && decide (e.dur = 0)) = false ∧
+        execCrash es = false := by
+      simpa only [execCrash, Bool.or_eq_false_iff] using hexec
+    have hexec' : execCrash es = false := hexec2.2
     by_cases hph : e.ph = "X"
     · cases htsx : e.tsx with
       | none =>
-        have hexec' : execCrash c.lastExec es = false := by
-          simpa [execCrash, htsx] using hexec
-        obtain ⟨le, h⟩ := ih c hkeep' href' hexec'
-        refine ⟨le, ?_⟩
-        simp [phase1, step1, hk, hph, htsx, h, p1Ev, epochFold, epochOf]
+        simp [phase1, step1, hk, hph, htsx, ih c hkeep' href' hexec', p1Ev, epochFold, epochOf]
       | some raw =>
         have hlt : refIdx e.name < (localFix raw).length := by
           rw [localFix_length]; exact hr raw hph htsx
-        by_cases hx : hasSub e.name "Cmpt Exec" = true
-        · have h3 : e.dur ≠ 0 ∧ c.lastExec e.pid ≠ some e.ts ∧
-              execCrash (setAt c.lastExec e.pid e.ts) es = false := by
-            simpa [execCrash, hph, htsx, hx, not_or, and_assoc] using hexec
-          obtain ⟨le, h⟩ := ih
-            ⟨setAt c.epoch e.pid (updEpoch (c.epoch e.pid) (epochStart f e.ts (localFix raw)[refIdx e.name])),
-              setAt c.lastExec e.pid e.ts⟩ hkeep' href' h3.2.2
-          refine ⟨le, ?_⟩
-          simp [phase1, step1, hk, hph, htsx, List.getElem?_eq_getElem hlt, hx, h3.1, h3.2.1, h, p1Ev,
-            epochFold, epochOf]
-        · have hx' : hasSub e.name "Cmpt Exec" = false := by simpa using hx
-          have hexec' : execCrash c.lastExec es = false := by
-            simpa [execCrash, hph, htsx, hx'] using hexec
-          obtain ⟨le, h⟩ := ih
-            ⟨setAt c.epoch e.pid (updEpoch (c.epoch e.pid) (epochStart f e.ts (localFix raw)[refIdx e.name])),
-              c.lastExec⟩ hkeep' href' hexec'
-          refine ⟨le, ?_⟩
-          simp [phase1, step1, hk, hph, htsx, List.getElem?_eq_getElem hlt, hx', h, p1Ev, epochFold, epochOf]
-    · have hexec' : execCrash c.lastExec es = false := by
-        simpa [execCrash, hph] using hexec
-      obtain ⟨le, h⟩ := ih c hkeep' href' hexec'
-      refine ⟨le, ?_⟩
-      simp [phase1, step1, hk, hph, h, p1Ev, epochFold, epochOf]
+        have hz : (hasSub e.name "Cmpt Exec" && decide (e.dur = 0)) = false := by
+          simpa [hph, htsx] using hexec2.1
+        have := ih ⟨setAt c.epoch e.pid (updEpoch (c.epoch e.pid) (epochStart f e.ts (localFix raw)[refIdx e.name]))⟩
+          hkeep' href' hexec'
+        simp [phase1, step1, hk, hph, htsx, List.getElem?_eq_getElem hlt, hz, this, p1Ev, epochFold, epochOf]
+    · simp [phase1, step1, hk, hph, ih c hkeep' href' hexec', p1Ev, epochFold, epochOf]
 
-/-- the excluded branch: a zero-length `Cmpt Exec` slice, or two consecutive `Cmpt Exec` slices of one pid with the
-same host `ts`, abort phase 1 with `ZeroDivisionError` -/
+/-- the excluded branch: a zero-length `Cmpt Exec` slice aborts phase 1 with `ZeroDivisionError` -/
 theorem phase1_crash (f : Rat) (evs : List Ev) (c : Ctx)
     (hkeep : ∀ e ∈ evs, withinLimits e = true) (href : ∀ e ∈ evs, RefOk e)
-    (hexec : execCrash c.lastExec evs = true) :
+    (hexec : execCrash evs = true) :
     phase1 f c evs = .error "zerodiv" := by
   induction evs generalizing c with
   | nil => simp [execCrash] at hexec
@@ -201,32 +182,20 @@ theorem phase1_crash (f : Rat) (evs : List Ev) (c : Ctx)
     by_cases hph : e.ph = "X"
     · cases htsx : e.tsx with
       | none =>
-        have hexec' : execCrash c.lastExec es = true := by
-          simpa [execCrash, htsx] using hexec
+        have hexec' : execCrash es = true := by simpa [execCrash, htsx] using hexec
         simp [phase1, step1, hk, hph, htsx, ih c hkeep' href' hexec']
       | some raw =>
         have hlt : refIdx e.name < (localFix raw).length := by
           rw [localFix_length]; exact hr raw hph htsx
-        by_cases hx : hasSub e.name "Cmpt Exec" = true
-        · by_cases hd : e.dur = 0
-          · simp [phase1, step1, hk, hph, htsx, List.getElem?_eq_getElem hlt, hx, hd]
-          · by_cases hl : c.lastExec e.pid = some e.ts
-            · simp [phase1, step1, hk, hph, htsx, List.getElem?_eq_getElem hlt, hx, hd, hl]
-            · have hexec' : execCrash (setAt c.lastExec e.pid e.ts) es = true := by
-                simpa [execCrash, hph, htsx, hx, hd, hl] using hexec
-              have := ih
-                ⟨setAt c.epoch e.pid (updEpoch (c.epoch e.pid) (epochStart f e.ts (localFix raw)[refIdx e.name])),
-                  setAt c.lastExec e.pid e.ts⟩ hkeep' href' hexec'
-              simp [phase1, step1, hk, hph, htsx, List.getElem?_eq_getElem hlt, hx, hd, hl, this]
-        · have hx' : hasSub e.name "Cmpt Exec" = false := by simpa using hx
-          have hexec' : execCrash c.lastExec es = true := by
-            simpa [execCrash, hph, htsx, hx'] using hexec
-          have := ih
-            ⟨setAt c.epoch e.pid (updEpoch (c.epoch e.pid) (epochStart f e.ts (localFix raw)[refIdx e.name])),
-              c.lastExec⟩ hkeep' href' hexec'
-          simp [phase1, step1, hk, hph, htsx, List.getElem?_eq_getElem hlt, hx', this]
-    · have hexec' : execCrash c.lastExec es = true := by
-        simpa [execCrash, hph] using hexec
+        by_cases hz : (hasSub e.name "Cmpt Exec" && decide (e.dur = 0)) = true
+        · simp [phase1, step1, hk, hph, htsx, List.getElem?_eq_getElem hlt, hz]
+        · have hz' : (hasSub e.name "Cmpt Exec" && decide (e.dur = 0)) = false := by simpa using hz
+          have hexec' : execCrash es = true := by
+            simpa [execCrash, hph, htsx, hz'] using hexec
+          have := ih ⟨setAt c.epoch e.pid (updEpoch (c.epoch e.pid) (epochStart f e.ts (localFix raw)[refIdx e.name]))⟩
+            hkeep' href' hexec'
+          simp [phase1, step1, hk, hph, htsx, List.getElem?_eq_getElem hlt, hz', this]
+    · have hexec' : execCrash es = true := by simpa [execCrash, hph] using hexec
       simp [phase1, step1, hk, hph, ih c hkeep' href' hexec']
 
 /-! ### the reference epoch under ground truth -/
